@@ -254,12 +254,134 @@ def rule_r6(ctx):
         raise AnalysisBroken("only %d hand-outs of the parked message found" % n)
 
 
+# ---------------------------------------------------------------------------
+# R8: a pipe's completion callbacks act on the pairing only while their pipe is the attached peer
+
+
+def _attached_edges(f, rec, pipe_names):
+    """{block: succ} edges of f on which `s->p == <this pipe>` is established: s->p (or a local loaded from it) compared
+    with one of pipe_names"""
+    loaded = set()
+    for t in f.sites():
+        for m in walk(f.expand(t.node)):
+            if m.get("k") == "asg" and m.get("op") == "=" and m["lhs"].get("k") == "var":
+                r_ = m["rhs"]
+                while r_ is not None and r_.get("k") == "cast":
+                    r_ = r_["e"]
+                if r_ is not None and r_.get("k") == "mem" and r_["f"] == "p" and r_.get("rec") == rec:
+                    loaded.add(m["lhs"]["n"])
+
+    def is_sp(x):
+        while x is not None and x.get("k") == "cast":
+            x = x["e"]
+        if x is None:
+            return False
+        if x.get("k") == "asg":
+            x = x["lhs"]
+        return (x.get("k") == "mem" and x["f"] == "p" and x.get("rec") == rec) or (x.get("k") == "var" and x["n"] in loaded)
+
+    def is_me(x):
+        while x is not None and x.get("k") == "cast":
+            x = x["e"]
+        return x is not None and x.get("k") == "var" and x["n"] in pipe_names
+    out = {}
+    for bid, k, atom, val in G.edge_facts(f):
+        if atom.get("k") == "bin" and atom["op"] in ("==", "!=") and ((atom["op"] == "==") == bool(val)) and \
+                ((is_sp(atom["lhs"]) and is_me(atom["rhs"])) or (is_sp(atom["rhs"]) and is_me(atom["lhs"]))):
+            out[bid] = k
+    return out
+
+
+def rule_r8(ctx):
+    r = ctx.rule("C08.R8", "T1", "a pipe's completion callbacks act on the pairing only while their pipe is the attached peer: in the "
+                 "callbacks of a pair pipe's aios every store to the socket record, every put into / get from the socket's "
+                 "buffers, every raise / clear of its pollables and every hand-over to the pipe (nni_pipe_send) is made on the "
+                 "edge s->p == <this pipe> -- in the callback, or in the file-local helper it passes its pipe to. The stop "
+                 "slot detaches the pipe before it stops the pipe's aios, so a completion that was already dispatched runs "
+                 "afterwards: it must not park a message on the dead pipe (the next receive follows s->p == NULL) or drive "
+                 "the peer that has attached in the meantime", floor=8)
+    prog = ctx.prog
+    n = 0
+    for file, rec, prec in (("pair0/pair.c", "pair0_sock", "pair0_pipe"), ("pair1/pair.c", "pair1_sock", "pair1_pipe")):
+        cbs = set()
+        for (g, aio_e, cb, arg, site) in prog.aio_callbacks():
+            if g.file.endswith(file) and any(m.get("k") == "mem" and m.get("rec") == prec for m in walk(aio_e)):
+                cbs.add(cb)
+        if len(cbs) < 2:
+            raise AnalysisBroken("%s: callbacks of the pipe's aios not found" % file)
+
+        def sinks_of(f):
+            out = [(t, show(t.node["lhs"])) for t in f.assigns() if t.node["lhs"].get("k") == "mem" and t.node["lhs"].get("rec") == rec]
+            for c in f.calls(("nni_pollable_clear", "nni_pollable_raise", "nni_lmq_put", "nni_lmq_get", "nni_lmq_flush")):
+                a0 = f.expand(c.node["args"][0]) if c.node["args"] else None
+                if a0 is not None and any(m.get("k") == "mem" and m.get("rec") == rec for m in walk(a0)):
+                    out.append((c, "%s(%s)" % (c.node["fn"], show(a0))))
+            for c in f.calls("nni_pipe_send"):
+                out.append((c, "nni_pipe_send"))
+            return out
+        for name in sorted(cbs):
+            f = prog.need(name, file)
+            me = {d["n"] for t in f.sites() if t.node.get("k") == "decls" for d in t.node["d"] if prec in (d.get("t") or "")}
+            me |= {p_["n"] for p_ in f.params if prec in (p_.get("t") or "")}
+            # the callback's void * argument the pipe local is initialised from (edge facts are copy-propagated)
+            for t in f.sites():
+                if t.node.get("k") == "decls":
+                    for d in t.node["d"]:
+                        if d["n"] in me and d.get("init") is not None:
+                            iv = f.expand(d["init"])
+                            while iv is not None and iv.get("k") == "cast":
+                                iv = iv["e"]
+                            if iv is not None and iv.get("k") == "var" and iv.get("vk") == "param":
+                                me.add(iv["n"])
+            mine = _attached_edges(f, rec, me)
+            todo = list(sinks_of(f))
+            # helpers of the same file that are handed the socket (or the pipe's socket)
+            for c in f.calls():
+                h = prog.resolve(f, c.node["fn"]) if c.node.get("fn") else None
+                if h is None or h is f or h.cfg_failed or not h.file.endswith(file) or not h.static:
+                    continue
+                hs = sinks_of(h)
+                if not hs:
+                    continue
+                if mine and G.dominated(f, (c.b, c.i), mine):
+                    n += 1
+                    r.ob(f, "%s called only while this pipe is the attached peer" % h.name)
+                    continue
+                # the helper decides: it must receive this pipe and test s->p against that parameter
+                bound = {h.params[i]["n"] for i, a in enumerate(c.node["args"]) if a is not None and i < len(h.params) and
+                         f.expand(a).get("k") == "var" and f.expand(a)["n"] in me}
+                hm = _attached_edges(h, rec, bound) if bound else {}
+                for t, what in hs:
+                    n += 1
+                    if hm and G.dominated(h, (t.b, t.i), hm):
+                        r.ob(h, "%s (line %s) only when the pipe %s passes is the attached peer" % (what, t.line, f.name))
+                    else:
+                        ctx.fail(r, h, "pairing driven by a completion of a pipe that may be detached", t.line,
+                                 "%s (line %s of %s) is reached from %s, the completion callback of a pipe's aio, without the "
+                                 "test s->p == that pipe: the stop slot detaches a pipe before it stops its aios, so this runs "
+                                 "for a dead pipe too -- on the peer that has attached since" % (what, t.line, h.name, f.name),
+                                 file=h.file)
+            for t, what in todo:
+                n += 1
+                if mine and G.dominated(f, (t.b, t.i), mine):
+                    r.ob(f, "%s (line %s) only when this pipe is the attached peer" % (what, t.line))
+                else:
+                    ctx.fail(r, f, "pairing changed by a completion of a pipe that may be detached", t.line,
+                             "%s at line %s of %s is not under the test s->p == this pipe: the stop slot detaches the pipe (s->p = "
+                             "NULL, parked message released) before it stops the pipe's aios, so a completion dispatched earlier "
+                             "runs afterwards -- a message parked then is never released, and the next receive follows the NULL "
+                             "s->p" % (what, t.line, f.name))
+    if n < 8:
+        raise AnalysisBroken("only %d effects of the pair pipes' callbacks on the socket found" % n)
+
+
 def run(ctx):
     ctx.guard(rule_r1)
     ctx.guard(rule_r2)
     ctx.guard(rule_r3)
     ctx.guard(rule_r4)
     ctx.guard(rule_r6)
+    ctx.guard(rule_r8)
     from . import c09
     ctx.guard(c09.rule_r8)
     for rr in ctx.rules:
